@@ -30,10 +30,19 @@ SCHEMA = {'classes': [{'name': 'P', 'attrs': [['Id', 'UNIQUE_ID'], ['Prev_Id', '
           'uniques': [{'cls': 'P', 'name': 'I1', 'attrs': ['Id']}]}
 
 
-def build(n, chains, rings=()):
-    """chain [c0, c1, ..]: c0 refers to c1 ('prev' from c0 reaches c1, 'next' from c1 reaches c0)."""
+def build(n, chains, rings=(), detour=False):
+    """chain [c0, c1, ..]: c0 refers to c1 ('prev' from c0 reaches c1, 'next' from c1 reaches c0).
+    detour: the instances were first linked into one chain in creation order (and partly the other way round) and
+    unlinked again - the succession order is a function of the present links only."""
     m = build_api(SCHEMA)
     inst = [m.new('P') for _ in range(n)]
+    if detour and n >= 2:
+        for a, b in zip(range(n), range(1, n)):
+            assert xtuml.relate(inst[a], inst[b], 4, 'prev')
+        for a, b in zip(range(n), range(1, n)):
+            assert xtuml.unrelate(inst[a], inst[b], 4, 'prev')
+        assert xtuml.relate(inst[n - 1], inst[0], 4, 'prev')
+        assert xtuml.unrelate(inst[0], inst[n - 1], 4, 'next')
     for ch in chains:
         for a, b in zip(ch, ch[1:]):
             assert xtuml.relate(inst[a], inst[b], 4, 'prev')
@@ -70,7 +79,8 @@ def expected_ring(ring, order, phrase):
 
 def check_sort(chains, order, case, rings=(), n=None):
     n = n if n is not None else sum(len(c) for c in chains) + sum(len(r) for r in rings)
-    m, inst = build(n, chains, rings)
+    detour = (sum(order) + len(chains) + n) % 2 == 1 if case.get('detour') is None else case['detour']
+    m, inst = build(n, chains, rings, detour=detour)
     idx = dict((id(x), i) for i, x in enumerate(inst))
     for phrase in ('prev', 'next'):
         for rel in (4, 'R4'):
